@@ -60,6 +60,34 @@ func stressPhase(props map[string]bool, faultPct int, rename string) func(env *c
 	}
 }
 
+// failoverPhase runs the leader-failover scenario of the threaded engine (replicas built and started by the
+// production ControllerManager with leader election on) under the race detector.
+func failoverPhase(env *core.Env, res *core.Result) {
+	phase, n := 2500*time.Millisecond, 2
+	if env.Tier == "thorough" {
+		phase, n = 4*time.Second, 4
+	}
+	opt := sim.FailoverOptions{Seed: env.Seed*977 + int64(env.From), Phase: phase, Failovers: n, JobConfigs: 4, Workers: 2 + env.From%3, MaxDelayMs: 3}
+	r := sim.RunFailover(opt)
+	res.Cases++
+	for k, v := range r.Counts {
+		res.Count("failover_"+k, v)
+	}
+	res.Evaluations += r.Counts["start_writes"] + r.Counts["counter_checks"]
+	for t := range r.StartTraces {
+		res.MarkDistinct("failover-start|" + t)
+	}
+	if !r.Quiesced {
+		res.Inconclusive = append(res.Inconclusive, fmt.Sprintf("failover run %d: %v", env.From, r.Notes))
+	} else {
+		res.Count("failover_runs_quiesced", 1)
+	}
+	for _, v := range r.Viol {
+		res.Violate(core.Violation{Prop: v.Prop, Sig: v.Sig, Msg: "[leader failover, threaded run under -race] " + v.Msg, Case: -100 - env.From, Detail: map[string]interface{}{"failover_options": opt, "counts": r.Counts}})
+	}
+	res.Sample(map[string]interface{}{"kind": "leader failover under -race", "options": opt, "counts": r.Counts}, 1)
+}
+
 // ---------------------------------------------------------------------------
 // linearizability of the active-job counter (porcupine)
 
